@@ -65,7 +65,9 @@ def law_of(sampler, n, p):
     def run(z):
         with tape.Tape(normal_values=z) as tp:
             out = sampler()
-        return np.asarray(out, dtype=float), tp.n_normal(), tp.unmodelled
+        # draws other than standard normals (uniform-based samplers, discrete choices) are outside the affine analysis:
+        # counted as unmodelled, which makes the configuration undecided rather than judged
+        return np.asarray(out, dtype=float), tp.n_normal(), tp.unmodelled + len(tp.points)
     return tape.affine_response(run)
 
 
